@@ -73,6 +73,9 @@ func c08Step(twin bool) {
 			c08Consistent("emitted", pkt.RawPacket)
 		}
 	}
+	// reaching this point means neither processor panicked on this path (a feasible panic is
+	// reported by the engine as a violation of the implicit clause no-panic)
+	verif.Assert("processing-terminated", true)
 }
 
 func VerifC08() { c08Step(false) }
